@@ -21,6 +21,11 @@ pub struct FunctionInliner {
     cursor: usize,
     fn_depth: usize,
     expander: InlineExpander,
+    // session unit (see OptimizationPass::set_top_level_open): how deep the walk is inside
+    // function and lambda bodies, i.e. in code that can still run after a later unit has
+    // redefined a top-level function of this one
+    top_level_open: bool,
+    deferred: usize,
 }
 
 impl FunctionInliner {
@@ -36,7 +41,13 @@ impl FunctionInliner {
             cursor: 0,
             fn_depth: 0,
             expander: InlineExpander::new(),
+            top_level_open: false,
+            deferred: 0,
         }
+    }
+
+    pub fn set_top_level_open(&mut self, open: bool) {
+        self.top_level_open = open;
     }
 
     pub fn warnings(&self) -> &[Warning] {
@@ -130,9 +141,11 @@ impl FunctionInliner {
 
             TypedStmtKind::Function(f) => {
                 self.fn_depth += 1;
+                self.deferred += 1;
                 for s in f.body.iter_mut() {
                     self.inline_in_stmt(s, analysis);
                 }
+                self.deferred -= 1;
                 self.fn_depth -= 1;
             }
 
@@ -205,9 +218,11 @@ impl FunctionInliner {
                 self.inline_in_expr(range, analysis);
             }
             TypedExprKind::LambdaInner { body, .. } => {
+                self.deferred += 1;
                 for s in body.iter_mut() {
                     self.inline_in_stmt(s, analysis);
                 }
+                self.deferred -= 1;
             }
             _ => {}
         }
@@ -216,6 +231,8 @@ impl FunctionInliner {
         if let TypedExprKind::Call { callee, args } = &expr.kind
             && let TypedExprKind::Identifier(name) = &callee.kind
             && self.declared_before_use(name)
+            // in a session unit the callee may be redefined before this function body runs
+            && !(self.top_level_open && self.deferred > 0)
             && let Some(func) = self.functions.get(name).cloned()
         {
             let aggressive = self.level == OptimizationLevel::Aggressive;
